@@ -39,6 +39,26 @@ type observed struct {
 	Top       centrifuge.StreamPosition
 }
 
+// slowHistory delays every history read by a (virtual) round trip, as a remote broker
+// would: concurrent recoveries then overlap inside Broker.History, which is what
+// Config.UseSingleFlight coalesces.
+type slowHistory struct {
+	*centrifuge.MemoryBroker // embedded as the concrete type so that Close stays reachable for Node.Shutdown
+	delay time.Duration
+	mu    sync.Mutex
+	calls int
+}
+
+func (b *slowHistory) History(ch string, opts centrifuge.HistoryOptions) ([]*centrifuge.Publication, centrifuge.StreamPosition, error) {
+	b.mu.Lock()
+	b.calls++
+	b.mu.Unlock()
+	if b.delay > 0 {
+		time.Sleep(b.delay)
+	}
+	return b.MemoryBroker.History(ch, opts)
+}
+
 func runCase(c *kit.Case) {
 	r := c.R
 	w := kit.NewWorld(c)
@@ -50,6 +70,11 @@ func runCase(c *kit.Case) {
 	if r.Chance(1, 3) {
 		cfg.HistoryMetaTTL = 20 * time.Second
 	}
+	storm := c.Index%3 == 2
+	if storm {
+		cfg.UseSingleFlight = r.Chance(3, 4)
+	}
+	var slow *slowHistory
 	var mu sync.Mutex
 	var curOpts centrifuge.SubscribeOptions
 	node, _ := w.NewNode(cfg, func(n *centrifuge.Node) {
@@ -70,6 +95,14 @@ func runCase(c *kit.Case) {
 				cb(centrifuge.SubscribeReply{Options: o}, nil)
 			})
 		})
+		if storm {
+			inner, err := centrifuge.NewMemoryBroker(n, centrifuge.MemoryBrokerConfig{})
+			if err != nil {
+				panic(err)
+			}
+			slow = &slowHistory{MemoryBroker: inner}
+			n.SetBroker(slow)
+		}
 	})
 	h := &recov.Hist{W: w, Node: node, Channel: channel}
 
@@ -225,11 +258,133 @@ func runCase(c *kit.Case) {
 			break
 		}
 	}
+	if storm && !c.Violated() {
+		sigParts += stormPhase(c, w, node, h, byPos, top, slow, limit, offList, epochsSeen, &mu, &curOpts, cfg.UseSingleFlight)
+	}
 	c.Nontrivial(sigParts)
 	if c.Index < 32 {
 		c.Sample(map[string]any{"ops": h.Ops, "limit": limit, "requests": samples})
 	}
 	w.Shutdown()
+}
+
+// stormPhase issues groups of 2..4 recoveries of the same channel from the same offset at
+// the same instant (a reconnect storm) while history reads take a round trip, with
+// different epochs / filters / flags per connection, and judges every result with the
+// same oracle as the sequential grid. With Config.UseSingleFlight the history reads of a
+// group are coalesced; the answer to each caller must still be exact for *its* request.
+func stormPhase(c *kit.Case, w *kit.World, node *centrifuge.Node, h *recov.Hist, byPos map[string]map[uint64]recov.Rec, top centrifuge.StreamPosition,
+	slow *slowHistory, limit int, offList []uint64, epochsSeen []string, mu *sync.Mutex, curOpts *centrifuge.SubscribeOptions, singleFlight bool) string {
+	r := c.R
+	slow.delay = time.Duration(r.Range(2, 30)) * time.Millisecond
+	sig := fmt.Sprintf("|storm sf=%v", singleFlight)
+	groups := r.Range(3, 6)
+	for g := 0; g < groups && !c.Violated(); g++ {
+		off := kit.Pick(r, offList)
+		if top.Offset > 0 && r.Chance(2, 3) {
+			off = uint64(r.Intn(int(top.Offset) + 1)) // plausible for the current stream
+		}
+		sf := recov.Filters[0]
+		if r.Chance(1, 4) {
+			sf = kit.Pick(r, recov.Filters)
+		}
+		mu.Lock()
+		*curOpts = centrifuge.SubscribeOptions{EnableRecovery: true, AllowTagsFilter: true, ServerTagsFilter: recov.CloneFilter(sf.Node)}
+		mu.Unlock()
+		n := r.Range(2, 4)
+		type member struct {
+			rq   request
+			cf   recov.TagFilter
+			conn *kit.Conn
+			ob   observed
+		}
+		members := make([]*member, n)
+		foreign := "nope"
+		if len(epochsSeen) > 1 {
+			foreign = epochsSeen[r.Intn(len(epochsSeen)-1)]
+		}
+		for i := range members {
+			m := &member{rq: request{Offset: off, Kind: "client"}, cf: recov.Filters[0]}
+			switch {
+			case i == 0 || r.Chance(1, 3):
+				m.rq.EpochKind, m.rq.Epoch = "current", top.Epoch
+			case r.Chance(1, 5):
+				m.rq.EpochKind, m.rq.Epoch = "empty", ""
+			default:
+				m.rq.EpochKind, m.rq.Epoch = "stale", foreign
+				if foreign == top.Epoch {
+					m.rq.EpochKind = "current"
+				}
+			}
+			m.rq.Reject = r.Chance(1, 5)
+			if r.Chance(1, 3) {
+				m.cf = kit.Pick(r, recov.Filters)
+			}
+			m.rq.ClientFilter, m.rq.ServerFilter = m.cf.Name, sf.Name
+			proto := kit.Pick(r, []centrifuge.ProtocolType{centrifuge.ProtocolTypeJSON, centrifuge.ProtocolTypeProtobuf})
+			m.rq.Proto = string(proto)
+			m.conn = w.NewConn(node, kit.TransportOpts{Protocol: proto})
+			m.conn.Connect(nil)
+			members[i] = m
+		}
+		w.Settle()
+		// the leader of a coalesced read is whoever gets there first: vary it
+		order := r.Perm(n)
+		slow.mu.Lock()
+		before := slow.calls
+		slow.mu.Unlock()
+		var wg sync.WaitGroup
+		for _, idx := range order {
+			m := members[idx]
+			wg.Add(1)
+			go func() {
+				defer wg.Done()
+				req := &protocol.SubscribeRequest{Channel: channel, Recover: true, Offset: m.rq.Offset, Epoch: m.rq.Epoch, Tf: recov.CloneFilter(m.cf.Node)}
+				if m.rq.Reject {
+					req.Flag = 2
+				}
+				id := m.conn.Subscribe(req)
+				m.ob = observed{Req: m.rq, Top: top}
+				if f, ok := m.conn.PollReply(id, 5*time.Second); ok {
+					if f.Reply.Error != nil {
+						m.ob.ErrCode = f.Reply.Error.Code
+					} else if res := f.Reply.Subscribe; res != nil {
+						m.ob.Recovered, m.ob.WasRec, m.ob.Offset, m.ob.Epoch = res.Recovered, res.WasRecovering, res.Offset, res.Epoch
+						for _, p := range res.Publications {
+							m.ob.IDs = append(m.ob.IDs, recov.PayloadID(p.Data))
+							m.ob.Offsets = append(m.ob.Offsets, p.Offset)
+						}
+					}
+				}
+			}()
+		}
+		wg.Wait()
+		slow.mu.Lock()
+		reads := slow.calls - before
+		slow.mu.Unlock()
+		c.Count("storm_recoveries", n)
+		if reads < n {
+			c.Count("storm_history_reads_coalesced", n-reads)
+		}
+		epochKinds := map[string]bool{}
+		for _, m := range members {
+			epochKinds[m.rq.EpochKind] = true
+		}
+		if len(epochKinds) > 1 {
+			c.Count("storm_groups_with_mixed_epochs", 1)
+		}
+		for _, m := range members {
+			c.Eval(1)
+			check(c, h, byPos, m.ob, m.cf, sf, limit)
+			sig += fmt.Sprintf("|%s:%v:%v:%d", m.rq.EpochKind, m.ob.Recovered, len(m.ob.IDs) > 0, m.ob.ErrCode)
+			_ = m.conn.CloseFn()
+			if c.Violated() {
+				break
+			}
+		}
+	}
+	slow.delay = 0
+	return sig
 }
 
 func bucket(n int) int {
@@ -322,7 +477,7 @@ func TestC02(t *testing.T) {
 	kit.Main(t, kit.Spec{
 		ID:     "C02",
 		Bubble: true,
-		Rule: "each case = one bubble: a random channel history (publishes with size 1..50 / TTL 2..60s / tags, sleeps across TTLs, RemoveHistory, meta-TTL expiry -> new epoch) on a virtual clock, then ~25 subscribes with recover over a grid of offsets (0, random, top-1, top, top+1, top+7, 2^62) x epoch (current, empty, stale) x reject-unrecovered flag x client/server tags filters x JSON/Protobuf x client-side / connect-time server-side, with RecoveryMaxPublicationLimit in {0,1,2,5}. " +
+		Rule: "each case = one bubble: a random channel history (publishes with size 1..50 / TTL 2..60s / tags, sleeps across TTLs, RemoveHistory, meta-TTL expiry -> new epoch) on a virtual clock, then ~25 subscribes with recover over a grid of offsets (0, random, top-1, top, top+1, top+7, 2^62) x epoch (current, empty, stale) x reject-unrecovered flag x client/server tags filters x JSON/Protobuf x client-side / connect-time server-side, with RecoveryMaxPublicationLimit in {0,1,2,5}. Every third case adds a reconnect storm: history reads take a 2..30 ms (virtual) round trip, Config.UseSingleFlight is on in 3 of 4 of them, and 3..6 groups of 2..4 connections recover the same channel from the same offset at the same instant with different epochs (current / stale / empty), filters and flags, in a seeded start order; coalesced reads are counted. " +
 			"Oracle from the publish log (unique ids): recovered=true => same/empty epoch and publications == exactly the published ones in (offset, top] minus filtered, not beyond the limit; recovered=false => no publications. Non-trivial = every case; signature = limit x top bucket x per-request (epoch kind, recovered, has publications, error).",
 		Assumptions: []string{
 			"an empty requested epoch is treated as compatible with any epoch (deliberate behaviour of the library; counted as recovered_with_empty_epoch)",
@@ -330,7 +485,7 @@ func TestC02(t *testing.T) {
 			"refusing a recoverable position is allowed by the statement; the run requires that recovered=true with publications was observed",
 		},
 		Cases:           map[string]int{"quick": 1200, "thorough": 24000},
-		RequireCounters: []string{"recovered_true_nonempty", "recovered_true_with_filtered", "recovered_false", "rejected_unrecoverable", "recovered_true_empty"},
+		RequireCounters: []string{"recovered_true_nonempty", "recovered_true_with_filtered", "recovered_false", "rejected_unrecoverable", "recovered_true_empty", "storm_recoveries", "storm_history_reads_coalesced", "storm_groups_with_mixed_epochs"},
 		Run:             runCase,
 	})
 }
